@@ -374,6 +374,11 @@ type c20Case struct {
 	Style     string `json:"style"`
 	Form      string `json:"form"`
 	Carrier   string `json:"carrier"`
+	Tail      struct {
+		Gap   int      `json:"gap"`   // empty documents between the configuration and the further document
+		Empty string   `json:"empty"` // how they are written
+		Load  []string `json:"load"`  // [] = the unknown key at the root; else the rule list holding one entry without action
+	} `json:"tail"`
 	Pos       int    `json:"pos"`
 	NPos      int    `json:"npos"`
 	ExpL      bool   `json:"expl"`
@@ -1188,10 +1193,22 @@ func c20Run(args []string) int {
 				case "bom":
 					rec.text = "\ufeff" + mustYAML(raw)
 				case "seconddoc":
+					// the further document: the unknown key at its root, or a rule list whose only entry has no action. It comes
+					// after Tail.Gap empty documents (null entries of Extra: nothing to look at, but they are documents of the stream)
 					second := map[string]any{r.unknown: "x"}
-					rec.Extra = []any{second}
-					rec.text = mustYAML(raw) + "---\n" + mustYAML(second)
-					rec.Inj = append(rec.Inj, injection{At: []string{}, Key: r.unknown, Ldr: kl[c.File].Root, Pub: kp[c.File].Root})
+					if len(c.Tail.Load) > 0 {
+						second = map[string]any{c.Tail.Load[0]: []any{map[string]any{}}}
+					} else {
+						rec.Inj = append(rec.Inj, injection{At: []string{}, Key: r.unknown, Ldr: kl[c.File].Root, Pub: kp[c.File].Root})
+					}
+					rec.text = mustYAML(raw)
+					rec.Extra = []any{}
+					for g := 0; g < c.Tail.Gap; g++ {
+						rec.Extra = append(rec.Extra, nil)
+						rec.text += c20EmptyDocument(c.Tail.Empty)
+					}
+					rec.Extra = append(rec.Extra, second)
+					rec.text += "---\n" + mustYAML(second)
 				}
 				var buf bytes.Buffer
 				emitRecord(json.NewEncoder(&buf), r, &rec, dir)
@@ -1204,6 +1221,21 @@ func c20Run(args []string) int {
 		w.Write(b)
 	}
 	return 0
+}
+
+// c20EmptyDocument: one YAML document without content, in the spellings TLC chooses from (EmptyDocs)
+func c20EmptyDocument(form string) string {
+	switch form {
+	case "bare":
+		return "---\n"
+	case "comment":
+		return "---\n# nothing here\n"
+	case "null":
+		return "--- ~\n"
+	case "end":
+		return "---\n...\n"
+	}
+	panic("unknown spelling of an empty document: " + form)
 }
 
 func emitRecord(enc *json.Encoder, r *renderer, rec *c20Record, tmp string) {
